@@ -92,3 +92,63 @@ def tree_runner(tree):
                     yield row
         yield from emit(tree)
     return run
+
+
+class FakeLoader:
+    """what annet.gen.Loader gives the workers: devices by id and the generators selected for them"""
+
+    def __init__(self, device, gens, entire=(), json_fragment=()):
+        self._device = device
+        self._gens = (list(gens), list(entire), list(json_fragment))
+
+    @property
+    def devices(self):
+        return [self._device]
+
+    @property
+    def device_ids(self):
+        return [self._device.id]
+
+    @property
+    def device_fqdns(self):
+        return {self._device.id: self._device.fqdn}
+
+    def get_device(self, device_id):
+        assert device_id == self._device.id
+        return self._device
+
+    def resolve_gens(self, devices):
+        from annet import gen as ann_gen
+        dg = ann_gen.DeviceGenerators()
+        for d in devices:
+            dg.partial[d] = list(self._gens[0])
+            dg.ref[d] = []
+            dg.entire[d] = list(self._gens[1])
+            dg.json_fragment[d] = list(self._gens[2])
+        return dg
+
+
+def worker_args(acl_safe=False, no_acl=False, no_acl_exclusive=False, filter_acl_text=None, clear=False, add_comments=False, indent="  "):
+    return _types.SimpleNamespace(
+        config="-", clear=clear, acl_safe=acl_safe, add_comments=add_comments, indent=indent, no_acl=no_acl, generators_context=None, profile=False,
+        no_acl_exclusive=no_acl_exclusive, fail_on_empty_config=False, filter_acl=("-" if filter_acl_text else None), filter_ifaces=None,
+        filter_peers=None, filter_policies=None, required_packages_check=False, show_rules=False, no_color=True, no_collapse=True,
+    )
+
+
+def run_patch_worker(device, gens, config_text, **opts):
+    """the `annet patch` worker for one device -> [(label, text, is_fail)]"""
+    from annet import api
+    from annet.filtering import NopFilterer
+    args = worker_args(**opts)
+    stdin = {"config": config_text, "filter_acl": opts.get("filter_acl_text")}
+    return list(api._patch_worker(device.id, args, stdin, FakeLoader(device, gens), NopFilterer()))
+
+
+def run_diff_worker(device, gens, config_text, **opts):
+    """the `annet diff` worker for one device -> Diff | PCDiff | None"""
+    from annet import diff as ann_diff
+    from annet.filtering import NopFilterer
+    args = worker_args(**opts)
+    stdin = {"config": config_text, "filter_acl": opts.get("filter_acl_text")}
+    return ann_diff.worker(device.id, args, stdin, FakeLoader(device, gens), NopFilterer())
